@@ -9,15 +9,30 @@ PID = 'C09'
 PARALLEL = True
 BATCH = 100
 BUDGET_S = {'quick': 80, 'thorough': 1200}
-RULE = ('dense datasets with small-integer templates, absent / diagonal dyadic whitening (inverse supplied or '
-        'computed), dyadic non-negative amplitudes, features whose positive part may vanish, templates or '
-        'clusters without spikes at first / middle / last position, unit factors 1, 2.5, sampling rates, '
-        'curated and un-curated clusters. One case = one loaded TemplateModel queried for all summaries. '
+RULE = ('dense datasets with small-integer templates, absent / diagonal dyadic / unit-triangular whitening (inverse '
+        'supplied or computed), dyadic non-negative amplitudes, features whose positive part may vanish (2..3 '
+        'components, channel lists with or without repeats), templates or clusters without spikes at first / middle / '
+        'last position, unit factors 1, 2.5, sampling rates, curated and un-curated clusters, id / amplitude / '
+        'template dtypes; a class with a negative or zero unit factor or negative stored amplitudes (the clause '
+        '"exactly that peak amplitude" is then judged as |amplitude|, see rescaledUnit_peak_abs); a class of '
+        'un-curated datasets with real-valued (normal) templates, dense whitening, amplitudes and features, compared '
+        'with a float32-level tolerance. One case = one loaded TemplateModel queried for all summaries; the arrays '
+        'each summary is computed from are selected by the Lean model from the STORED files. '
         'non-trivial = every case (>= 3 spikes, >= 2 templates)')
 ASSUMPTIONS = ['exact-arithmetic model; the generated values make every float operation of the real code exact or '
                'a single correctly rounded division, compared through fractions.Fraction; rescaled templates and '
                'curated-cluster chains use a relative tolerance of 1e-9; two-step chains (mean x factor, samples / rate x 1000) 2^-40',
-               'np.linalg.inv of a diagonal power-of-two matrix is exact']
+               'np.linalg.inv of a diagonal power-of-two matrix is exact',
+               'real-valued class (case["real"]): the Lean model gets the STORED values (after the dtype of the file) as '
+               'exact rationals; the real float32 / float64 chain is compared with an absolute tolerance of 1e-5 x the '
+               'largest magnitude involved (float32 rounding is 6e-8), peak channels within that tolerance of the '
+               'largest peak-to-peak are all accepted',
+               'feature stores have >= 2 components and >= 2 local channels: a size-1 axis of pc_features.npy is squeezed away by '
+               '_read_array and the 2-D remainder (n_spikes, k) is ambiguous; the real loader reads it as k components on ONE local '
+               'channel, so a one-component file on k channels fails the shape assertion at load (AssertionError) - outside the '
+               'quantifier, not generated, not judged',
+               'the per-template channel lists (get_template(t, unwhiten=False).channel_ids, property C05) that curated '
+               'cluster means are restricted to are observed on the real model (validated by ./check C08 with the C05 model)']
 
 
 def impl(case):
@@ -55,6 +70,32 @@ def impl(case):
     return out
 
 
+def _stored(spec, key):
+    """the values of a file as the dataset writer stores them (after the dtype of the file), as float64"""
+    dt = dict(D.DEFAULT_DTYPES)
+    dt.update(spec.get('dtypes') or {})
+    return np.array(spec[key], dtype=dt[key]).astype(np.float64)
+
+
+def _depth_query(spec):
+    F = _stored(spec, 'pc_features')
+    return dict(op='depths', feat0=DC.fracs(F[:, 0, :]), cols=spec['pc_feature_ind'],
+                ys=DC.fracs([p[1] for p in spec['channel_positions']]), spike_templates=spec['spike_templates'])
+
+
+def _scales(case, ok):
+    """real-valued class only: magnitudes the float32-level tolerances are relative to (NOT expected values)"""
+    spec = case['spec']
+    T = _stored(spec, 'templates')
+    U = T @ np.asarray(ok['wmi'], dtype=np.float64)
+    A = float(np.max(np.abs(_stored(spec, 'amplitudes')))) if len(spec['amplitudes']) else 0.
+    return dict(maxT=max(1., float(np.max(np.abs(T)))), maxU=max(1., float(np.max(np.abs(U)))),
+                amp=max(1., float(np.max(np.abs(U))) * A * abs(case['factor'])))
+
+
+REL32 = 1e-5         # real-valued class: tolerance relative to the largest magnitude involved (float32 rounding: 6e-8)
+
+
 def model_query(case, impl_res):
     """several Lean queries in one: op 'multi'"""
     spec = case['spec']
@@ -62,38 +103,29 @@ def model_query(case, impl_res):
     if 'ok' not in impl_res:
         return dict(p=PID, op='mean_amps', ids=[0], amplitudes=[1])
     ok = impl_res['ok']
-    amps = DC.fracs(spec['amplitudes'])
-    qs = []
     if case.get('only_depths'):
-        qs.append(dict(op='depths', feat0=DC.fracs([[row for row in f[0]] for f in spec['pc_features']]),
-                       cols=spec['pc_feature_ind'], ys=DC.fracs([p[1] for p in spec['channel_positions']]),
-                       spike_templates=spec['spike_templates']))
-        q['qs'] = qs
+        q['qs'] = [_depth_query(spec)]
         return q
-    wmi = DC.fracs(ok['wmi'])
+    # ONE query holds the STORED arrays: templates.npy, spike_templates.npy, spike_clusters.npy, amplitudes.npy, the
+    # probe table, the unit factor and the sampling rate as exact rationals.  Which waveforms / assignment / number
+    # of ids each id space uses is decided by the Lean model (Model/C09c `useArrays`, through C08 `loadClusters`);
+    # nothing of that is read back from the loaded object.  Observed on the real model: the inverse whitening
+    # matrix (checked against the stored matrices in `judge`) and the per-template channel lists of C05.
+    T = _stored(spec, 'templates')
+    nc = spec['n_channels']
+    st = spec['spike_templates']
+    wm = spec['whitening'] if spec.get('whitening') is not None else [[1. if i == j else 0. for j in range(nc)] for i in range(nc)]
+    qs = [dict(op='summaries', templates=DC.fracs(T), chans=ok['chans_w'], st=st, sc=spec.get('spike_clusters') or st,
+               ns=int(T.shape[1]), nc=nc, wmi=DC.fracs(ok['wmi']), wm=DC.fracs(wm), amplitudes=DC.fracs(_stored(spec, 'amplitudes')),
+               factor=DC.frac(case['factor']), rate=DC.frac(spec['sample_rate']),
+               probes=[int(x) for x in (spec.get('channel_probes') or [0] * nc)],
+               eps=DC.frac(REL32 * _scales(case, ok)['maxT'] if case.get('real') else 0.))]
     for use in ('templates', 'clusters'):
         a = ok['amps_' + use]
-        if 'raised' in a:
-            qs += [dict(op='mean_amps', ids=[0], amplitudes=[1])] * 3
-            continue
-        # the unit factor and the sampling rate go to the Lean model as exact rationals: the model returns the
-        # RETURN VALUES of get_amplitudes_true and the durations in milliseconds
-        qs.append(dict(op='amps', wfs=DC.fracs(a['wfs']), wmi=wmi, amplitudes=amps, spikes=a['spikes'],
-                       factor=DC.frac(case['factor'])))
-        qs.append(dict(op='channels', wfs=DC.fracs(a['wfs']), rate=DC.frac(spec['sample_rate'])))
         # the property's own predicate on the REAL rescaled waveforms: their peak amplitude, computed by Lean
-        qs.append(dict(op='peak_amps', wfs=[DC.fracs(W) for W in a['phys'] if _finite(W)]))
-    qs.append(dict(op='mean_amps', ids=spec['spike_templates'], amplitudes=amps))
-    qs.append(dict(op='mean_amps', ids=spec.get('spike_clusters') or spec['spike_templates'], amplitudes=amps))
+        qs.append(dict(op='peak_amps', wfs=[] if 'raised' in a else [DC.fracs(W) for W in a['phys'] if _finite(W)]))
     if spec.get('pc_features') is not None:
-        qs.append(dict(op='depths', feat0=DC.fracs([[row for row in f[0]] for f in spec['pc_features']]),
-                       cols=spec['pc_feature_ind'], ys=DC.fracs([p[1] for p in spec['channel_positions']]),
-                       spike_templates=spec['spike_templates']))
-    if 'chans_w' in ok:
-        # the cluster waveforms the cluster summaries are computed from, against the C08 model
-        st8 = spec['spike_templates']
-        q['_second'] = dict(p='C08', op='clusters', W=DC.fracs(spec['templates']), chans=ok['chans_w'], st=st8,
-                            sc=spec.get('spike_clusters') or st8, ns=len(spec['templates'][0]), nc=spec['n_channels'])
+        qs.append(_depth_query(spec))
     q['qs'] = qs
     return q
 
@@ -111,6 +143,16 @@ def _close(a, b, tol):
     return abs(a - b) <= tol * max(1., abs(b))
 
 
+def _near(a, b, abs_tol):
+    if a is None or b is None:
+        return a is None and b is None
+    return abs(a - b) <= abs_tol
+
+
+def _floats(M):
+    return [[[DC.to_float(x) for x in row] for row in W] for W in M]
+
+
 def judge(case, impl_res, ans):
     if 'err' in ans:
         return 'MACHINERY: driver error %s' % ans['err']
@@ -120,33 +162,7 @@ def judge(case, impl_res, ans):
     ok = impl_res['ok']
     res = ans['ok']['res']
     spec = case['spec']
-    if 'wmi' in ok:
-        bad = DC.check_wmi(spec, ok['wmi'])
-        if bad:
-            return 'SPEC: ' + bad
-    # the arrays the model's formulas are evaluated on are the STORED arrays (not merely whatever the loaded
-    # object shows): template waveforms and spike-template assignment as written to disk
-    at = ok.get('amps_templates') or {}
-    if 'wfs' in at:
-        if at['wfs'] != np.asarray(spec['templates'], dtype=np.float32).astype(np.float64).tolist():
-            return 'SPEC: the template waveforms the summaries are computed from differ from the stored templates.npy'
-        if at['spikes'] != list(spec['spike_templates']):
-            return 'SPEC: the spike-template assignment the summaries are computed from differs from the stored one'
-    curated = spec.get('spike_clusters') is not None and spec['spike_clusters'] != spec['spike_templates']
-    if 'err' in ans.get('second', {}):
-        return 'MACHINERY: driver error in the cluster-waveform query: %s' % ans['second']['err']
-    c08 = ans.get('second', {}).get('ok')
-    if curated and c08 is not None and 'wfs' in (ok.get('amps_clusters') or {}):
-        exp_cw = [[[DC.to_float(x) for x in row] for row in M] for M in c08['data']]
-        if ok['amps_clusters']['wfs'] != exp_cw:
-            return 'SPEC: the cluster waveforms the summaries are computed from are not the count-weighted template means (C08)'
-    ac = ok.get('amps_clusters') or {}
-    if 'spikes' in ac and ac['spikes'] != list(spec.get('spike_clusters') or spec['spike_templates']):
-        return 'SPEC: the spike-cluster assignment the summaries are computed from differs from the stored one'
-    f = case['factor']
-    sr = spec['sample_rate']
-    curated = spec.get('spike_clusters') is not None and spec['spike_clusters'] != spec['spike_templates']
-    k = 0
+    real = bool(case.get('real'))
     if case.get('only_depths'):
         exp = [DC.to_float(x) for x in res[0]['model']]
         if ok['depths'] is None or len(ok['depths']) != len(exp) or \
@@ -154,19 +170,59 @@ def judge(case, impl_res, ans):
             bad = [i for i, (x, y) in enumerate(zip(ok['depths'] or [], exp)) if not _close(x, y, 1e-12)][:3]
             return 'SPEC: spike depths differ from the feature-weighted channel depths at spikes %s of %d' % (bad, len(exp))
         return None
+    S = res[0]
+    # "unwhitened": the inverse whitening matrix the model multiplies by.  The Lean model decides exactly whether it
+    # inverts the STORED whitening matrix (hypothesis `Unwhitens` of the theorem `unwhiten_whitened`); a computed
+    # inverse that is an inverse only up to rounding is accepted within 1e-9 (check_wmi); with a stored inverse the
+    # model must show that file.
+    if spec.get('whitening_inv') is not None or S['unwhitens'] is not True:
+        bad = DC.check_wmi(spec, ok['wmi'])
+        if bad:
+            return 'SPEC: ' + bad
+    sc = dict(maxT=1., maxU=1., amp=1.)
+    if real:
+        sc = _scales(case, ok)
+    f = case['factor']
+    curated = spec.get('spike_clusters') is not None and spec['spike_clusters'] != spec['spike_templates']
+    # the sign conditions of the clause "the rescaled templates have exactly that peak amplitude" (rescaledUnit_peak);
+    # without them the peak amplitude is the ABSOLUTE VALUE of the returned amplitude (rescaledUnit_peak_abs)
+    signed = f < 0 or any(x < 0 for x in spec['amplitudes'])
+    k = 1
+    tpl_peaks = None
     for use in ('templates', 'clusters'):
         a = ok['amps_' + use]
+        U = S[use]
+        one = use[:-1]
         if 'raised' in a:
             return 'SPEC: get_amplitudes_true(use=%r) raised %s (%s)' % (use, a['raised'], a['msg'])
-        m = res[k]; ch = res[k + 1]
-        if use == 'templates':
-            tpl_peaks = ch['peak']
-        real_peaks = iter(res[k + 2]['peaks'])
-        k += 3
+        m = U['amps']; ch = U['channels']
+        real_peaks = iter(res[k]['peaks'])
+        k += 1
+        # ---- consistency of my own model with its theorems
+        n_ids = U['id_count']
+        if U['n_wav'] != n_ids or len(U['wfs']) != n_ids or m is None:
+            return 'MACHINERY: model id space (%s): n_wav %d, %d waveforms, id count %d (contradicts useArrays_spec / amplitudesTrueUse_defined)' % (
+                use, U['n_wav'], len(U['wfs']), n_ids)
         if m['amps_v'] != m['amps_v_spec']:
             return 'MACHINERY: model amplitudes differ from the mean-over-members spec (contradicts the theorem)'
+        if U['no_spikes'] != [t for t, x in enumerate(m['amps_v']) if x is None]:
+            return 'MACHINERY: the NaN entries of the model are not the ids absent from the stored assignment (contradicts ampsUse_spec)'
         if ch['durations_ms'] != ch['durations_ms_spec']:
             return 'MACHINERY: model durations (flat-index route) differ from the per-waveform formula (contradicts the theorem)'
+        # ---- the id space: how many ids, which assignment, which waveforms — decided from the STORED arrays
+        n_real = ok['n_' + use]
+        if n_real != n_ids:
+            return 'SPEC: the model declares %d %s, the stored arrays give %d (%s)' % (
+                n_real, use, n_ids, 'one per id from 0 to the highest cluster id' if use == 'clusters' and curated else 'one per template')
+        if a['spikes'] != U['spikes']:
+            return 'SPEC: the spike-%s assignment the summaries are computed from differs from the stored one' % one
+        if a['wfs'] != _floats(U['wfs']):
+            if use == 'templates':
+                return 'SPEC: the template waveforms the summaries are computed from differ from the stored templates.npy'
+            return 'SPEC: the cluster waveforms the summaries are computed from are not %s' % (
+                'the count-weighted template means (C08)' if curated else 'the stored template waveforms (nothing was curated)')
+        if use == 'templates':
+            tpl_peaks = ch['peak']
         # exact-arithmetic domain: un-curated data (small integers / dyadic values). There the returned spike
         # amplitudes are exact products; the per-id means are ONE correctly rounded division when the factor is 1,
         # and a division followed by a multiplication otherwise (compared with the relative tolerance 2^-40 of
@@ -174,13 +230,26 @@ def judge(case, impl_res, ans):
         inexact = use == 'clusters' and curated
         tol = 1e-9 if inexact else 0.
         tol_v = 1e-9 if inexact else (0. if f == 1 else TOL)
+        if real:
+            def cmp_amp(x, y): return _near(x, y, REL32 * sc['amp'])
+            cmp_v = cmp_amp
+        else:
+            def cmp_amp(x, y): return _close(x, y, tol)
+            def cmp_v(x, y): return _close(x, y, tol_v)
         exp_spike = [DC.to_float(x) for x in m['spike_amps']]
-        if len(a['spike']) != len(exp_spike) or not all(_close(x, y, tol) for x, y in zip(a['spike'], exp_spike)):
+        if len(a['spike']) != len(exp_spike) or not all(cmp_amp(x, y) for x, y in zip(a['spike'], exp_spike)):
             return 'SPEC: scaled spike amplitudes (%s) differ from amplitude x largest unwhitened peak-to-peak x factor' % use
+        # NaN exactly for the ids that do not occur in the STORED assignment — any id of the space, the highest included
+        if len(a['v']) != n_ids:
+            return 'SPEC: %d per-%s amplitudes for %d ids' % (len(a['v']), one, n_ids)
+        for t in range(n_ids):
+            if (a['v'][t] is None) != (t in U['no_spikes']):
+                return 'SPEC: per-%s amplitude of id %d of %d is %s although the stored assignment has %s spike of it' % (
+                    one, t, n_ids, 'NaN' if a['v'][t] is None else repr(a['v'][t]), 'a' if a['v'][t] is None else 'no')
         exp_v = [DC.to_float(x) for x in m['amps_v']]
-        if len(a['v']) != len(exp_v) or not all(_close(x, y, tol_v) for x, y in zip(a['v'], exp_v)):
+        if not all(cmp_v(x, y) for x, y in zip(a['v'], exp_v)):
             return 'SPEC: per-%s amplitudes differ from the mean over member spikes (NaN for ids without spikes): %s vs %s' % (
-                use[:-1], a['v'], exp_v)
+                one, a['v'], exp_v)
         # rescaled templates have exactly that peak amplitude
         if len(a['phys']) != len(m['rescaled']):
             return 'SPEC: %d rescaled %s for %d ids' % (len(a['phys']), use, len(m['rescaled']))
@@ -191,25 +260,39 @@ def judge(case, impl_res, ans):
                 # no spike: the returned waveform is NaN everywhere (a flat waveform WITH spikes divides by
                 # zero, which the property does not speak about)
                 if m['amps_v'][t] is None and any(x is not None for row in ph for x in row):
-                    return 'SPEC: rescaled %s %d has no spikes but is not NaN everywhere' % (use[:-1], t)
+                    return 'SPEC: rescaled %s %d has no spikes but is not NaN everywhere' % (one, t)
                 continue
             if not _finite(ph):
-                return 'SPEC: rescaled %s %d has spikes and a non-flat waveform but holds NaN/inf' % (use[:-1], t)
+                return 'SPEC: rescaled %s %d has spikes and a non-flat waveform but holds NaN/inf' % (one, t)
             peak = DC.to_float(next(real_peaks))         # largest channel peak-to-peak of the REAL returned waveform
-            if not _close(peak, a['v'][t], 1e-9):
-                return 'SPEC: rescaled %s %d has peak amplitude %r, but its returned mean spike amplitude is %r' % (
-                    use[:-1], t, peak, a['v'][t])
+            # (real-valued class: the arbitrary-unit amplitude is a float32 difference, the returned waveform a float64
+            # product, so "exactly" holds up to one float32 rounding, 6e-8 relative — DESIGN §5 C09 L.)
+            if not signed:
+                if not _close(peak, a['v'][t], 1e-6 if real else 1e-9):
+                    return 'SPEC: rescaled %s %d has peak amplitude %r, but its returned mean spike amplitude is %r' % (
+                        one, t, peak, a['v'][t])
+            elif not _close(peak, abs(a['v'][t]), 1e-9):
+                # negative unit factor / negative stored amplitudes: the clause is false by a sign in the real code
+                # (documented, rescaledUnit_peak_abs / _neg); the model says |v|
+                return 'CORR: rescaled %s %d has peak amplitude %r, the model says |%r| (negative factor or amplitudes)' % (
+                    one, t, peak, a['v'][t])
             # ... and is, entry by entry, the unwhitened waveform x (mean amplitude / arbitrary-unit amplitude) x factor
             R = m['rescaled'][t]
+            if real:
+                au = DC.to_float(m['amps_au'][t])
+                atol = REL32 * sc['amp'] * max(1., sc['maxU'] / au)
+                def cmp_e(x, y): return _near(x, DC.to_float(y), atol)
+            else:
+                def cmp_e(x, y): return _close(x, DC.to_float(y), 1e-9)
             if len(ph) != len(R) or any(len(r1) != len(r2) for r1, r2 in zip(ph, R)) or \
-                    not all(_close(x, DC.to_float(y), 1e-9) for r1, r2 in zip(ph, R) for x, y in zip(r1, r2)):
-                return 'SPEC: rescaled %s %d is not the unwhitened waveform scaled to its mean spike amplitude' % (use[:-1], t)
+                    not all(cmp_e(x, y) for r1, r2 in zip(ph, R) for x, y in zip(r1, r2)):
+                return 'SPEC: rescaled %s %d is not the unwhitened waveform scaled to its mean spike amplitude' % (one, t)
         got_ch = ok[use + '_channels']
         got_d = ok[use + '_durations']
         nw = len(ch['peak'])
         if len(got_ch) != nw or len(got_d) != nw:
-            return 'SPEC: %d peak channels / %d durations for %d %s waveforms' % (len(got_ch), len(got_d), nw, use[:-1])
-        if not inexact:
+            return 'SPEC: %d peak channels / %d durations for %d %s waveforms' % (len(got_ch), len(got_d), nw, one)
+        if not inexact and not real:
             if got_ch != ch['peak']:
                 return 'SPEC: %s_channels differ from the first arg-max of the per-channel peak-to-peak' % use
             exp_d = [DC.to_float(x) for x in ch['durations_ms']]
@@ -218,26 +301,41 @@ def judge(case, impl_res, ans):
         else:
             # floating-point weighted means: a channel whose exact peak-to-peak is within 2^-40 of the largest one
             # is accepted as peak channel (rounding of max - min may break such a tie either way); the duration
-            # must be the one of the REPORTED channel (arg-max / arg-min along time compare stored values: exact)
+            # must be the one of the REPORTED channel (arg-max / arg-min along time compare stored values: exact).
+            # Real-valued class: float32 subtraction, channels within 1e-5 x the largest magnitude are accepted.
+            near = ch['near_peaks_abs'] if real else ch['near_peaks']
             for t in range(nw):
-                if got_ch[t] not in ch['near_peaks'][t]:
-                    return 'SPEC: clusters_channels[%d] = %d is not a channel of largest peak-to-peak %s' % (t, got_ch[t], ch['near_peaks'][t])
+                if got_ch[t] not in near[t]:
+                    return 'SPEC: %s_channels[%d] = %d is not a channel of largest peak-to-peak %s' % (use, t, got_ch[t], near[t])
                 if not _close(got_d[t], DC.to_float(ch['dur_table_ms'][t][got_ch[t]]), TOL):
-                    return 'SPEC: clusters waveform duration %d differs from (argmax - argmin) on the peak channel in ms' % t
-    # probe of the peak channel: the STORED probe table (all zeros when the dataset has none) at the MODEL's peak channel
+                    return 'SPEC: %s waveform duration %d differs from (argmax - argmin) on the peak channel in ms' % (use, t)
+    # probe of the peak channel: the STORED probe table (all zeros when the dataset has none) at the peak channel,
+    # computed by the model (`templatesProbes`)
     stored_probes = list(spec.get('channel_probes') or [0] * spec['n_channels'])
     if ok['channel_probes'] != stored_probes:
         return 'SPEC: channel_probes %s differ from the stored table %s' % (ok['channel_probes'], stored_probes)
-    if ok['templates_probes'] != [stored_probes[c] for c in tpl_peaks]:
+    if S['templates_probes'] != [stored_probes[c] for c in tpl_peaks]:
+        return 'MACHINERY: model templates_probes is not the probe table at the model peak channels (contradicts templatesProbes_spec)'
+    if real:
+        if len(ok['templates_probes']) != len(tpl_peaks) or \
+                any(p != stored_probes[c] for p, c in zip(ok['templates_probes'], ok['templates_channels'])):
+            return 'SPEC: templates_probes is not the probe of the peak channel'
+    elif ok['templates_probes'] != S['templates_probes']:
         return 'SPEC: templates_probes is not the probe of the peak channel'
+    # the bare vectors of `_amplitudes`: position k belongs to the k-th id present
     for key in ('templates_amplitudes', 'clusters_amplitudes'):
-        exp = [DC.to_float(x[1]) for x in res[k]['model']]; k += 1
-        if ok[key] != exp:
+        exp = [DC.to_float(x) for x in S[key]]
+        if len(exp) != len(S[key.split('_')[0] + '_present']):
+            return 'MACHINERY: model %s has not one entry per id present (contradicts amplitudesVec_spec)' % key
+        if len(ok[key]) != len(exp):
+            return 'SPEC: %s has %d entries for %d ids present' % (key, len(ok[key]), len(exp))
+        if (not all(_close(x, y, 1e-12) for x, y in zip(ok[key], exp))) if real else ok[key] != exp:
             return 'SPEC: %s differs from the mean stored amplitude per id present' % key
     if spec.get('pc_features') is not None:
-        exp = [DC.to_float(x) for x in res[k]['model']]; k += 1
+        exp = [DC.to_float(x) for x in res[k]['model']]
+        ymax = max(1., max(abs(p[1]) for p in spec['channel_positions']))
         if ok['depths'] is None or len(ok['depths']) != len(exp) or \
-                not all(_close(x, y, 1e-12) for x, y in zip(ok['depths'], exp)):
+                not all((_near(x, y, REL32 * ymax) if real else _close(x, y, 1e-12)) for x, y in zip(ok['depths'], exp)):
             return 'SPEC: spike depths differ from the feature-weighted channel depths: %s vs %s' % (ok['depths'], exp)
     return None
 
@@ -264,6 +362,20 @@ def tally(rep, case, impl_res, ans):
     if any(t not in used for t in range(1, nt - 1)):
         rep.count('template_without_spikes:middle')
     rep.count('factor:%s' % case['factor'])
+    rep.count('class:%s' % ('real_valued' if case.get('real') else 'signed' if case['factor'] < 0 or any(x < 0 for x in spec['amplitudes']) else 'exact'))
+    if not case.get('only_depths') and 'templates' in ((ans.get('ok') or {}).get('res') or [{}])[0]:
+        S = ans['ok']['res'][0]
+        rep.count('stored_whitening_exactly_inverted:%s' % S.get('unwhitens'))
+        for use in ('templates', 'clusters'):
+            n = S[use]['id_count']
+            if S[use]['no_spikes']:
+                rep.count('%s_ids_without_spikes' % use)
+                if n - 1 in S[use]['no_spikes']:
+                    rep.count('%s_highest_id_without_spikes' % use)
+    dt = spec.get('dtypes') or {}
+    for k in ('spike_templates', 'templates', 'amplitudes'):
+        if k in dt:
+            rep.count('dtype:%s=%s' % (k, dt[k]))
 
 
 def classify(case, impl_res, ans, why):
@@ -274,12 +386,67 @@ def classify(case, impl_res, ans, why):
                 curated=spec.get('spike_clusters') is not None, raised=impl_res.get('raised'))
 
 
+def _vary_storage(rng, spec):
+    """exact class: the dtypes the files are stored with (all generated values are exactly representable in each),
+    the number of feature components (only the first one is used), a repeated channel in a feature channel list"""
+    spec['dtypes'] = dict(spike_templates=rng.pick(['uint32', 'int64', 'uint16', 'int32']),
+                          spike_clusters=rng.pick(['int32', 'int64', 'uint32']),
+                          amplitudes=rng.pick(['float64', 'float64', 'float32']),
+                          templates=rng.pick(['float32', 'float32', 'float64']))
+    if spec.get('pc_features') is not None:
+        nloc = len(spec['pc_features'][0][0])
+        # 2..3 components are in-domain.  ONE component is not generated: `_read_array` squeezes the size-1 axis of
+        # pc_features.npy, and the loader reads the resulting (n_spikes, k) array as k components on ONE local channel
+        # (reshape to (n, k, 1), transpose -> (n, 1, k)); a file meant as one component on k channels then fails the
+        # shape assertion against pc_feature_ind.npy (AssertionError at load).  The 2-D array is ambiguous between the
+        # two readings: a squeezed stored dimension is outside the quantifier (DESIGN 9.4).
+        npc = rng.pick([2, 2, 3])
+        for fsp in spec['pc_features']:
+            del fsp[npc:]
+            while len(fsp) < npc:
+                fsp.append([float(rng.randrange(-4, 9)) for _ in range(nloc)])
+        if rng.random() < .15:
+            row = rng.pick(spec['pc_feature_ind'])
+            row[rng.randrange(1, nloc)] = row[0]
+    return spec
+
+
+def _real_valued(rng, spec):
+    """real-valued class: normal templates, a dense well-conditioned whitening matrix (inverse computed by the model
+    or stored), positive real amplitudes, normal features; float32 / float64 files.  Un-curated (all waveform
+    arrays are stored values, so arg-max / arg-min along time stay exact comparisons)."""
+    nc = spec['n_channels']
+    spec['templates'] = [[[rng.gauss(0., 3.) for _ in row] for row in t] for t in spec['templates']]
+    wm = np.array([[(4. if i == j else 0.) + rng.gauss(0., .5) for j in range(nc)] for i in range(nc)])
+    spec['whitening'] = wm.tolist()
+    spec.pop('whitening_inv', None)
+    if rng.random() < .5:
+        spec['whitening_inv'] = np.linalg.inv(wm).tolist()
+    spec['amplitudes'] = [abs(rng.gauss(10., 4.)) + .125 for _ in spec['amplitudes']]
+    if spec.get('pc_features') is not None:
+        spec['pc_features'] = [[[rng.gauss(0., 3.) for _ in row] for row in fsp] for fsp in spec['pc_features']]
+    spec['dtypes'] = dict(templates=rng.pick(['float32', 'float64']), amplitudes=rng.pick(['float64', 'float32']),
+                          spike_templates=rng.pick(['uint32', 'int64', 'uint16', 'int32']))
+    spec.pop('template_scaling', None)
+    return spec
+
+
 def gen(tier, rng):
     q = tier == 'quick'
     for i in range(250 if q else 5000):
         empty = ['none', 'first', 'middle', 'last'][i % 4] if i < 60 else 'random'
-        spec = DC.dense_spec(rng, empty=empty, feats=(i % 5 != 4), probes=(i % 3 == 0))
-        yield dict(p=PID, spec=spec, factor=[1., 2.5, 1.][i % 3], reopen=(i % 4 == 1))
+        kind = {3: 'real', 5: 'signed', 12: 'signed'}.get(i % 14, 'exact') if i >= 60 else 'exact'
+        if kind == 'real':
+            spec = _real_valued(rng, DC.dense_spec(rng, nt=rng.randrange(2, 5), nc=rng.randrange(2, 6), nsw=rng.randrange(2, 5), empty=empty, feats=(i % 5 != 4), probes=(i % 3 == 0), curated=False, whiten='none'))
+            yield dict(p=PID, spec=spec, factor=[1., 2.5, 1.][i % 3], reopen=(i % 4 == 1), real=True)
+            continue
+        # 'signed': a negative / zero unit factor and / or negative stored amplitudes
+        neg_amp = kind == 'signed' and i % 2 == 0
+        spec = _vary_storage(rng, DC.dense_spec(rng, empty=empty, feats=(i % 5 != 4), probes=(i % 3 == 0), amp_nonneg=not neg_amp))
+        factor = [1., 2.5, 1.][i % 3]
+        if kind == 'signed' and (not neg_amp or i % 3 == 0):
+            factor = [-2.5, 0., -1.][(i // 7) % 3]
+        yield dict(p=PID, spec=spec, factor=factor, reopen=(i % 4 == 1))
     # get_depths works in batches of 50000 spikes: one more than a full batch, and exactly one batch
     for ns in ((50001,) if q else (50001, 50000, 100001)):
         spec = DC.dense_spec(rng, nt=3, nc=3, ns=ns, nsw=2, curated=False, whiten='none', feats=True, empty='none')
